@@ -270,7 +270,9 @@ def analyze(job):
                 lost += 1
                 if lost <= 3 or job.get("all_lost"):
                     cu = culprit(program, leaf, solver_kw)
-                    sig = {"dir": "incomplete", "culprit": cu[1] if cu else ["?"], "features": features(program)}
+                    sig = {"dir": "incomplete", "culprit": cu[1] if cu else ["?"]}
+                    if not (cu and cu[1]):
+                        sig["features"] = features(program)
                     if cu and len(cu[0]) <= 2:
                         sig.update(incomplete_disc(program, leaf, cu[0]))
                     key = json.dumps(sig, sort_keys=True)
